@@ -716,6 +716,7 @@ def run_grid(ctx, cases=None):
                                    rng.choice(["error", "hang", "hang"]), method,
                                    rng.choice([1, 2, 4] if method == "allocate_buckets" else [1, 2, 6])))
     descr, impl, lines = [], [], []
+    r_descr, r_impl, r_lines = [], [], []
     for gc in cases:
         seed = gc["seed"]
         case = {"grid_selection": dict(gc, servers=6, k=2, happy=4, n=4)}
@@ -733,9 +734,16 @@ def run_grid(ctx, cases=None):
                 victim = []
                 asked = []
                 failed_at = []          # number of plans computed when the fault first struck
+                queries = []            # (plans computed so far, server, answer kind) for every real allocate_buckets query
 
                 def make_fault(i):
                     def fault(methname, args, kwargs):
+                        r = fault1(methname, args, kwargs)
+                        if methname == "allocate_buckets":
+                            queries.append((len(plans), i, {"error": "e", "hang": "t"}.get(r, "o")))
+                        return r
+
+                    def fault1(methname, args, kwargs):
                         # the rank-th distinct server that is asked (for allocate_buckets: asked to really allocate something)
                         # breaks for that method and stays broken
                         if methname == gc["method"] and (methname != "allocate_buckets" or args[3]):
@@ -810,6 +818,29 @@ def run_grid(ctx, cases=None):
                                         enc_ids(sorted(to_num(p) for p in last["readonly"])),
                                         enc_ids(sorted(to_num(p) for p in last["bad"]))))
             descr.append(case)
+            # 4. every get_share_placements() of the loop vs the model of the allocation rounds (Lean roundStates): the
+            #    writable / read-only / bad sets the plan is computed from, and the number of distinct servers it uses
+            if gc["method"] == "allocate_buckets":
+                rounds = []
+                for k in range(1, len(plans)):
+                    qs = [(i, kind) for (pk, i, kind) in queries if pk == k]
+                    rounds.append(",".join("%d:%s" % q for q in qs) if qs else ".")
+                r_lines.append("rounds 4 6 - - " + " ".join(rounds))
+                r_impl.append(";".join("%s|%s|%s|spread=%d" % (enc_ids(sorted(to_num(p) for p in pl["peers"])),
+                                                               enc_ids(sorted(to_num(p) for p in pl["readonly"])),
+                                                               enc_ids(sorted(to_num(p) for p in pl["bad"])),
+                                                               len(set(pl["plan"].values()))) for pl in plans))
+                r_descr.append(dict(case, rounds=rounds))
+                ctx.count("grid-selection:rounds", len(rounds))
+    r_model = ctx.model(r_lines)
+    if r_model is not None:
+        def _spread(field):
+            st, plan = field.rsplit("|", 1)
+            servers = set(x.split(">")[1] for x in plan.split(",")) if plan not in ("-", "hang") else set()
+            return "%s|spread=%d" % (st, len(servers))
+        r_model = [";".join(_spread(f) for f in m.split(";")) for m in r_model]
+    ctx.compare("server sets and spread at every get_share_placements() of the allocation loop vs the Lean model of the rounds "
+                "(roundStates: exactly the failed or timed-out queries demote)", r_descr, r_impl, r_model)
     model = ctx.model(lines)
     if model is not None:
         model = [m[m.rindex("S:"):].rsplit("|", 1)[0] for m in model]
